@@ -22,7 +22,7 @@ from typing import Dict, List, Set, Tuple
 from ..model import AnalysisError, ClassInfo, FunctionInfo
 from ..pitlib import analyse_masker, frozen_masker_classes, storage_kinds
 from ..sym import NONE, Term, mentions, show, subterms
-from ..util import (SELF, arg, callee, guards_of, is_call, method_call, paths, returning, short,
+from ..util import (SELF, arg, callee, events_inlined, guards_of, is_call, method_call, paths, returning, short,
                     where)
 
 EXPLANATION = ('Per-call path analysis: def-use of the parameter generators of the three wrappers, '
@@ -357,7 +357,7 @@ def r11d(ctx):
         for name, s in w.setters.items():
             # a switch: setter that stores the same-named attribute on layers
             ps = paths(repo, s)
-            layer_stores = [(p, e) for p in ps for e in p.events
+            layer_stores = [(p, e) for p in ps for e in events_inlined(repo, w, p)
                             if e.kind == 'setattr' and e.data[0] != SELF]
             if not layer_stores:
                 continue
@@ -368,7 +368,7 @@ def r11d(ctx):
                 recv, attr, val = e.data[0], e.data[1], e.data[2]
                 in_leaf_loop = any(c[0] == 'loop' and c[2] in LEAF for c in e.ctx)
                 from_leaf = mentions(recv, lambda x: x[0] == 'elem' and x[1] in LEAF)
-                guards = guards_of(p, e)
+                guards = guards_of(p, e) if e in p.events else []
                 bad_guard = [a for a, v in guards
                              if not (is_call(a, 'builtins.hasattr', 'builtins.isinstance'))]
                 if not (in_leaf_loop and from_leaf and attr == name and
